@@ -571,9 +571,14 @@ package plenccodec
 
 //@ func plenccodec.JSONArrayCodec.Read
 //@   safety C04 C16
+//@   assume 0 <= loadi64(ptr + 8) && loadi64(ptr + 8) <= loadi64(ptr + 16) && loadi64(ptr + 16) < (1 << 40) && disjoint(ptr, 24, loadptr(ptr), 16 * loadi64(ptr + 16))   # the target is a well-formed slice header that does not lie inside its own array (Go type safety)
 //@   allocbound[C04] len(data)
 //@   loop 1 invariant[C04] 0 <= rangeindex + 1          # a re-used target is cleared first
 //@   loop 1 decreases len(a) - rangeindex
+//@   # every slot of the slice the elements are decoded into is nil before the first element is read - a fresh array,
+//@   # or a re-used one cleared over the whole encoded length (an entry for a JSON null writes nothing into its slot)
+//@   loop 1 invariant[C10,C16] forall k int :: 0 <= k && k <= rangeindex ==> isnil(a[k])
+//@   loop 2 entry[C10,C16] forall k int :: 0 <= k && k < len(a) ==> isnil(a[k])
 //@   loop 2 invariant[C04] 0 <= offset && offset <= len(data)
 //@   loop 2 decreases len(a) - rangeindex
 //@   ensures[C04,C05] err == nil ==> 0 <= n && n <= len(data)
